@@ -116,9 +116,31 @@ def check(cx):
                            msg='for_each does not visit every piece: ' + why)
                     ivar, val = seq.ivar, seq.elem
                 else:
-                    rep.ob('pw-traversal', inst, False, 'no recognisable traversal (%d loops, %d for_each)' % (len(loops), len(foreach)),
-                           fn=inst, file=file, line=line, key='C15:unrecognised-loop:' + inst)
-                    return
+                    # into_iter().map(op).collect()  (or a loop closed into a map by BUILD-TRAVERSAL)
+                    final = it.read(st, a.args[0].root, ()) if by_mut else a.ret
+                    seq = final.fields[0].seq if isinstance(final, Struct) and final.path == PW and isinstance(final.fields[0], VecV) else None
+                    okm = False
+                    why = 'no recognisable traversal (%d loops, %d for_each)' % (len(loops), len(foreach))
+                    if isinstance(seq, SeqMap) and isinstance(seq.src, Stream):
+                        s = seq.src
+                        while s.kind in ('map', 'cloned'):
+                            s = s.parts[0]
+                        if s.kind == 'src' and isinstance(s.parts[0], SliceRef):
+                            sl = s.parts[0]
+                            try:
+                                base = it.read(st, sl.root, sl.path)
+                            except Unsupported:
+                                base = None
+                            if isinstance(base, SeqSym) and base.name == 'self.segments' and sl.start == ('ic', 0) and sl.end == ('len', ('seq', 'self.segments')):
+                                okm = True
+                            else:
+                                why = 'the mapped stream does not cover self.segments from front to back'
+                    rep.ob('pw-traversal', inst, okm, 'collect(map(all segments in order, op))' if okm else why,
+                           fn=inst, file=file, line=line, key=None if okm else 'C15:unrecognised-loop:' + inst,
+                           msg='pieces are not produced by one pass over all of self.segments: ' + why)
+                    if not okm:
+                        return
+                    ivar, val = seq.ivar, seq.elem
                 S = ('seq', 'self.segments')
                 e_end = ('elem', S, ivar, 'end')
                 e_poly = ('elem', S, ivar, 'poly')
